@@ -81,6 +81,7 @@ def c16(ctx):
     # converse (in-range calls never panic), decided for the leaf functions the zone analysis covers
     RZ.rule_r18_partition(ctx, ctx.prog("dev"))
     RZ.rule_r18_leaves(ctx, ctx.prog("dev"))
+    RSG.rule_r18s_selection_converse(ctx, ctx.prog("dev"))
     return dict(
         level="other",
         explanation="Rejection direction of C16, decided as a must-pass-through property of the CFG in both build profiles "
@@ -88,7 +89,12 @@ def c16(ctx):
                     "partition_mut, get_from_sorted_mut, get_many_from_sorted_mut, Edges::index, Bins::index and Grid::index passes an "
                     "operation that diverges unless position < length (bounds-checked Index by the position, an assert comparing it with "
                     "len(self), or delegation to a verified callee on a sub-view with the index shifted by the same amount). "
-                    "The converse (in-range calls never panic) is decided for leaf functions by R18 under C15/C16 where implemented.",
+                    "The converse (in-range calls never panic): for the leaf functions by the zone analysis R18; for the two recursive selection "
+                    "routines by R18s – the abstract executions of R24/R25 record every point where continuing presupposes that no panic "
+                    "happened (bounds-checked indexing and slicing, split_at_mut, overflow and debug assertions, an empty gen_range, "
+                    "partition_mut's precondition pivot < len, the preconditions of the recursive calls) and each must be entailed by the "
+                    "state reached under `i < len` resp. the bulk routine's precondition. Panics inside the element type's own clone/cmp "
+                    "are outside the property. The public bulk wrapper's own `array[0]` (non-empty index list ⇒ non-empty array) is not modelled.",
     )
 
 
